@@ -370,6 +370,12 @@ package cache
 //@   props C14 C15 C03 C12
 //@   requires Ready(t) && len(owed) == 0 && clients != nil
 //@   modifies ghost tstore, ghost treal, ghost intAdded, ghost boolSets, ghost lastBool, ghost strSets, ghost lastStr, ghost latSamples, ghost lastSampleTs, ghost lastSynced, ghost owed, ghost updSteps, heap(ctree.Tree.leafBranch), t.sync
+//@   assert at call (*Tree).GetLeafValue#0: [each-flag-leaf-is-compared-with-the-registry-by-value C14 C15] arg0 == t.t
+//@   assert at call (*Tree).GetLeafValue#1: [each-counter-leaf-is-compared-with-the-registry-by-value C14 C15] arg0 == t.t
+//@   assert at call (*Tree).GetLeafValue#2: [each-text-leaf-is-compared-with-the-registry-by-value C14 C15] arg0 == t.t
+//@   assert at call metaNotiBool#0: [a-flag-leaf-is-regenerated-with-the-registry-value C14 C15] arg0 == t.name && arg1 == value && arg2 == v
+//@   assert at call metaNotiInt#0: [a-counter-leaf-is-regenerated-with-the-registry-value C14 C15] arg0 == t.name && arg1 == value && arg2 == v
+//@   assert at call metaNotiStr#0: [a-text-leaf-is-regenerated-with-the-registry-value C14 C15] arg0 == t.name && arg1 == value && arg2 == v
 //@   invariant 0: MetaGenInv(t)
 //@   invariant 1: MetaGenInv(t)
 //@   invariant 2: MetaGenInv(t)
@@ -387,6 +393,7 @@ package cache
 //@   ensures [other-targets-untouched C14] OthersKept(t)
 //@   ensures [all-announced C03] len(owed) == 0
 //@   ensures StoredWf(t) && wiped == old(wiped)
+//@   assert at call (*Target).generateMetaUpdates#0: [latest-timestamp-and-latency-statistics-recorded-before-the-leaves-are-regenerated C15] hits("call (*Latency).UpdateReset#0") == old(hits("call (*Latency).UpdateReset#0")) + 1 && hits("call (*Metadata).SetInt#0") == old(hits("call (*Metadata).SetInt#0")) + 1
 
 // Reset: afterwards only metadata leaves are stored for the target, every leaf
 // that disappeared is covered by an announced whole-origin delete (announced
